@@ -398,6 +398,9 @@ class kFlowDecomp(pathmodel.AbstractPathModelDAG):
         # Check if the greedy decomposition satisfies the subpath constraints
         if self.subpath_constraints:
             for subpath in self.subpath_constraints:
+                # (malformed constraints are reported as ValueError by the constraint validation of the base class)
+                if not isinstance(subpath, list) or not all(isinstance(edge, tuple) for edge in subpath):
+                    return False
                 if self.subpath_constraints_coverage_length is None:
                     # By default, the length of the constraints is its number of edges 
                     constraint_length = len(subpath)
